@@ -121,6 +121,14 @@ def h64(x) -> int:
 
 _CHECK = None
 _TIER = None
+_PROGRESS = None        # shared array: per worker slot (start time, family index, item index)
+_FAMILY_INDEX = {}
+HARD_TIMEOUT = int(os.environ.get("VF_HARD_TIMEOUT", "150"))
+
+
+def _slot():
+    ident = multiprocessing.current_process()._identity
+    return (ident[0] - 1) % NPROC if ident else 0
 
 
 def _alarm(signum, frame):
@@ -133,6 +141,11 @@ def _work(task):
     signal.signal(signal.SIGALRM, _alarm)
     for off, item in enumerate(items):
         idx = start + off
+        if _PROGRESS is not None:
+            sl = _slot() * 3
+            _PROGRESS[sl + 1] = _FAMILY_INDEX.get(family, -1)
+            _PROGRESS[sl + 2] = idx
+            _PROGRESS[sl] = time.time()
         signal.alarm(ITEM_TIMEOUT)
         try:
             r = _CHECK.check_item(family, item, _TIER)
@@ -151,6 +164,8 @@ def _work(task):
             r.fail("harness-exception", f"harness:{family}:{type(e).__name__}", tb)
         finally:
             signal.alarm(0)
+            if _PROGRESS is not None:
+                _PROGRESS[_slot() * 3] = 0.0
         out["items"] += 1
         out["evals"] += r.evals
         for k in r.keys:
@@ -238,13 +253,49 @@ def explore(check, tier, seed):
                 part["family"] = t[0]
                 _merge(total, part)
         else:
-            with ctx.Pool(NPROC) as pool:
-                # imap over a generator: bounded look-ahead through chunksize=1
-                for part_t in pool.imap_unordered(_work_named, tasks(), chunksize=1):
+            global _PROGRESS
+            _PROGRESS = ctx.Array("d", NPROC * 3, lock=False)
+            _FAMILY_INDEX.clear()
+            _FAMILY_INDEX.update({name: i for i, (name, _) in enumerate(fams)})
+            pool = ctx.Pool(NPROC)
+            try:
+                it = pool.imap_unordered(_work_named, tasks(), chunksize=1)
+                while True:
+                    try:
+                        part_t = it.next(timeout=5)
+                    except StopIteration:
+                        break
+                    except multiprocessing.TimeoutError:
+                        hung = _find_hung()
+                        if hung is None:
+                            continue
+                        fi, idx = hung
+                        name, genf = fams[fi]
+                        item = next((x for i, x in enumerate(genf()) if i == idx), None)
+                        total["fails"][("hang", f"hang:{name}")] = {
+                            "count": 1, "family": name, "item": item, "index": idx,
+                            "detail": f"item did not finish within {HARD_TIMEOUT}s and could not "
+                                      "be interrupted; exploration aborted"}
+                        total["aborted"] = True
+                        pool.terminate()
+                        break
                     _merge(total, part_t)
+            finally:
+                pool.terminate()
+                pool.join()
+                _PROGRESS = None
     finally:
         check.teardown(tier)
     return total
+
+
+def _find_hung():
+    now = time.time()
+    for w in range(NPROC):
+        t = _PROGRESS[w * 3]
+        if t and now - t > HARD_TIMEOUT:
+            return int(_PROGRESS[w * 3 + 1]), int(_PROGRESS[w * 3 + 2])
+    return None
 
 
 def _work_named(task):
@@ -258,6 +309,11 @@ def _work_named(task):
 def glob_match(pattern: str, s: str) -> bool:
     rx = ".*".join(re.escape(part) for part in pattern.split("*"))
     return re.fullmatch(rx, s, flags=re.S) is not None
+
+
+def rec_matches(rec, sig) -> bool:
+    keys = rec.get("keys") or [rec["key"]]
+    return any(glob_match(k, sig) for k in keys)
 
 
 def load_known(pid):
@@ -385,10 +441,10 @@ def main(argv=None):
     for r in known:
         try:
             rr = check.replay(r["witness"])
-            still = any(glob_match(r["key"], f["sig"]) for f in rr.fails)
+            still = any(rec_matches(r, f["sig"]) for f in rr.fails)
         except Exception as e:  # noqa: BLE001
             still = False
-            lines.append(f"note: replaying known finding {r['key']!r} raised {type(e).__name__}: {e}")
+            lines.append(f"note: replaying known finding {r['id']!r} raised {type(e).__name__}: {e}")
         if still:
             lines.append(f"KNOWN-FINDING: property={pid} {r['what']}")
         else:
@@ -397,9 +453,9 @@ def main(argv=None):
     violations = []
     known_hits = {}
     for (kind, sig), f in sorted(total["fails"].items(), key=lambda kv: kv[1]["index"]):
-        hit = next((r for r in known if glob_match(r["key"], sig)), None)
+        hit = next((r for r in known if rec_matches(r, sig)), None)
         if hit is not None:
-            known_hits[hit["key"]] = known_hits.get(hit["key"], 0) + f["count"]
+            known_hits[hit["id"]] = known_hits.get(hit["id"], 0) + f["count"]
         else:
             violations.append((kind, sig, f))
 
@@ -424,7 +480,7 @@ def main(argv=None):
         "distinct_nontrivial": len(total["keys"]),
         "rule": check.rule,
         "samples": _jsonable(_pick_samples(total["samples"], seed)),
-        "exhaustive": True,
+        "exhaustive": not total.get("aborted", False),
         "items": total["items"],
         "families": total["families"],
         "hash_seeds": total.get("hash_seeds"),
